@@ -35,6 +35,13 @@ MD = {
     "pts22": {"quadrature_rule": "custom", "quadrature_points": np.array([[0.25, 0.25], [0.5, 0.5]])},
     "pts41": {"quadrature_rule": "custom", "quadrature_points": np.array([[0.25, 0.25], [0.5, 0.5]]).reshape(4, 1)},
     "pts22b": {"quadrature_rule": "custom", "quadrature_points": np.array([[0.25, 0.25], [0.5, 0.25]])},
+    # rules that str() renders identically: > 1000 entries differing in the middle (abbreviated with '...'), entries
+    # differing beyond the 8 printed digits
+    "big_a": {"quadrature_rule": "custom", "quadrature_points": np.linspace(0, 1, 1200).reshape(400, 3)},
+    "big_b": {"quadrature_rule": "custom", "quadrature_points": np.where(np.arange(1200).reshape(400, 3) == 601, 0.125,
+                                                                         np.linspace(0, 1, 1200).reshape(400, 3))},
+    "fine_a": {"quadrature_rule": "custom", "quadrature_points": np.array([[0.25, 0.25], [0.5, 0.5]])},
+    "fine_b": {"quadrature_rule": "custom", "quadrature_points": np.array([[0.25, 0.25], [0.5, 0.5 + 1e-11]])},
     "none": {}, "deg2": {"quadrature_degree": 2}, "deg3": {"quadrature_degree": 3},
     "deg2rule": {"quadrature_degree": 2, "quadrature_rule": "default"}, "deg2str": {"quadrature_degree": "2"},
     "nested1": {"opts": {"a": 1}}, "nested2": {"opts": {"a": 2}}, "float1": {"scale": 1.0}, "int1": {"scale": 1},
@@ -55,6 +62,8 @@ PATTERNS = {
     "metadata_float_int": [(1, "float1", "dx"), (1, "int1", "dx")],
     "metadata_int_vs_str": [(1, "deg2", "dx"), (1, "deg2str", "dx")],
     "metadata_array_shape": [(1, "pts22", "dx"), (1, "pts41", "dx"), (1, "pts22", "dx")],
+    "metadata_array_large": [(1, "big_a", "dx"), (1, "big_b", "dx"), (1, "big_a", "dx")],
+    "metadata_array_digits": [(1, "fine_a", "dx"), (1, "fine_b", "dx")],
     "metadata_array_values": [(1, "pts22", "dx"), (1, "pts22b", "dx"), ("everywhere", "pts22b", "dx")],
     "types": [(1, "none", "dx"), (1, "none", "ds"), (1, "none", "dS"), ("everywhere", "none", "ds")],
     "same_integrand_ids": [(1, "none", "dx", "same"), (2, "none", "dx", "same"), (3, "none", "dx")],
@@ -112,8 +121,19 @@ def sid_tuple(s):
     return s if isinstance(s, tuple) else (s,)
 
 
+def _exact(v):
+    # exact rendering (repr of an ndarray abbreviates above 1000 entries and rounds to 8 digits)
+    if isinstance(v, np.ndarray):
+        return ("ndarray", str(v.dtype), v.shape, repr(v.tolist()))
+    if isinstance(v, dict):
+        return tuple((k, _exact(x)) for k, x in sorted(v.items()))
+    if isinstance(v, (list, tuple)):
+        return tuple(_exact(x) for x in v)
+    return v
+
+
 def md_key(md):
-    return repr(sorted((md or {}).items(), key=lambda kv: kv[0]))
+    return repr(sorted(((k, _exact(v)) for k, v in (md or {}).items()), key=lambda kv: kv[0]))
 
 
 def run(spec):
@@ -237,7 +257,7 @@ def main():
                    "accumulate_integrands_with_same_metadata,build_integral_data,attach/strip_coordinate_derivatives}",
                    "ufl.utils.sorting.canonicalize_metadata"],
         bounds={"patterns": sorted(PATTERNS), "append option": "both", "metadata values": sorted(MD),
-                "outside": "array-valued metadata beyond the three concrete 2x2 / 4x1 arrays of the metadata_array_* patterns (numpy printing is a C boundary: no symbolic model), MeshSequence / "
+                "outside": "array-valued metadata beyond the concrete arrays of the metadata_array_* patterns (2x2, 4x1, 400x3; differences in shape, values, one entry in the middle of 1200, the 11th digit) (numpy printing is a C boundary: no symbolic model), MeshSequence / "
                            "extra domain integral types, subdomain_data"},
         assumptions=["integrands are distinct symbolic scalars c_k * v (the grouping never looks inside them except "
                      "for canonical sorting and equality)", "metadata classes = Python equality of the dicts"],
